@@ -40,8 +40,33 @@ func init() {
 	specsFor["C14"] = c14Specs
 	checks["C14"] = func(c *Ctx) *Result {
 		r := runSpecs(c, c14Specs(c.Tier))
+		if r.Found == nil {
+			depth := 6
+			if c.Tier == "thorough" {
+				depth = 8
+			}
+			n, fails := iv0Enumerate(depth)
+			r.States += n
+			r.Transitions += n
+			known := 0
+			for _, f := range fails {
+				if id := c.KF.MatchRaw(c.ID, f); id != "" {
+					c.KF.NoteRaw(id, f)
+					known++
+					continue
+				}
+				rawViolation(c, r, f, nil)
+				break
+			}
+			shown := fails
+			if len(shown) > 12 {
+				shown = shown[:12]
+			}
+			r.Extra = map[string]any{"initial_version_zero": map[string]any{"depth": depth, "executions": n, "distinct_failures": len(fails), "of_them_known": known, "first_failures": shown,
+				"note": "all histories over {Set(a,x), Set(a,y), Remove(a), SaveVersion, reopen} on a tree opened with InitialVersionOption(0), fast index on and off; a failing history is not extended"}}
+		}
 		r.Assumptions = []string{
-			"InitialVersion 0 is not explored: with only version 0 committed a reopened store is indistinguishable from an empty one (version discovery starts at 1), and the statement numbers commits 'from 1 or from the configured initial version' — the case is recorded in DESIGN.md as ambiguous rather than alarmed on",
+			"InitialVersion 0 is explored by a separate enumeration with a direct oracle (c14_iv0.go), because the versioned-map model uses 0 for 'no version'; either first commit number (0 or 1) is accepted there",
 			"InitialVersion is kept constant over a history",
 		}
 		return r
